@@ -215,13 +215,13 @@ int main(int argc, char** argv)
 #ifdef SBEPP_VERIF
         SBEPP_VERIF_PHASE("error");
 #endif
-        reporter.error(e.what());
+        reporter.error("{}", e.what());
         return 1;
     }
     catch(const std::exception& e)
     {
         // `std::bad_alloc`, `std::filesystem::filesystem_error`, etc.
-        reporter.error(e.what());
+        reporter.error("{}", e.what());
         return 1;
     }
 
